@@ -41,6 +41,26 @@ var kidPairs = [][]string{
 }
 var kidPool = []string{"ed25519:1", "ed25519:auto", "ed25519:a_b", "ed25519:0", "ed25519:Zz9", "ed25519:p2", "ed25519:é", "ed25519:a.b"}
 
+// key IDs of other algorithms (label KA of JSONSign_gen.tla / JSONSign_trace.cfg): nobody signs with them, entries
+// under them are left by entities that sign differently
+var algKidPool = []string{"pgp:0xDEADBEEF", "x509:1", "curve25519:AAAAHg", "rsa:1", "signed_curve25519:AAAAHQ", "ed448:k", "ed25519",
+	"", "hmac-sha256:2", "ed25519:", "ecdsa-p256:a", "ED25519:1"}
+
+// addAlgKid gives the label KA a concrete key ID of another algorithm, distinct from the other key IDs.
+func (w *world) addAlgKid(rng *rand.Rand) {
+	for {
+		n := algKidPool[rng.Intn(len(algKidPool))]
+		taken := false
+		for _, k := range w.kid {
+			taken = taken || k == n
+		}
+		if !taken {
+			w.kid["KA"] = n
+			return
+		}
+	}
+}
+
 // top-level member names, including names that must be written with escapes in canonical JSON (quote,
 // backslash, control characters: their escaped spelling orders differently from their value) and names that
 // coincide with what is an entity name or a key ID elsewhere in the document.
@@ -82,6 +102,15 @@ func (d *document) key(class string) string {
 			}
 		}
 		return "C02/lone-surrogate/" + class
+	}
+	if f := d.foreignForm(); f != "" && !strings.HasPrefix(class, "sign/") {
+		// an entry that is no signature sits in the signatures member: one key per kind of failure and form
+		for _, cut := range []string{"/after=", "/signatures="} {
+			if i := strings.Index(class, cut); i >= 0 {
+				class = class[:i]
+			}
+		}
+		return "C02/foreign-entry/" + class + "/form=" + f
 	}
 	nilMap := strings.HasPrefix(class, "sign/panic/signatures=null") || strings.HasPrefix(class, "sign/panic/signatures=entity-null")
 	if l := d.lookalike(); l != "" && !nilMap {
@@ -320,7 +349,10 @@ func malformedKeys(good ed25519.PublicKey) [][]byte {
 	return [][]byte{good[:31], {}, nil, append(append([]byte{}, good...), 0)}
 }
 
-func (w *world) observe(doc []byte) *observation {
+// observe puts one document through VerifyJSON for the whole universe and through ListKeyIDs for every entity.
+// whole names the entities (concrete names) whose signatures[name] is no object: such a name has no key IDs, and
+// whether ListKeyIDs says so with an empty list or with an error is not the property's business.
+func (w *world) observe(doc []byte, whole map[string]bool) *observation {
 	o := &observation{Kids: map[string][]string{}, Errs: map[string]string{}, Ver: [][]string{}}
 	given := append([]byte{}, doc...)
 	defer func() {
@@ -367,6 +399,10 @@ func (w *world) observe(doc []byte) *observation {
 			o.Panic = "ListKeyIDs: " + pan
 			return o
 		}
+		if err != nil && whole[w.ent[e]] {
+			o.Kids[e] = []string{}
+			continue
+		}
 		if err != nil {
 			o.Kids[e] = []string{"error: " + err.Error()}
 			continue
@@ -394,6 +430,59 @@ type document struct {
 	// a text with a lone surrogate escape put into one of its strings is, or was, a member of this document
 	// (only used to label disagreements)
 	loneInvolved bool
+	// entries of the signatures member left by foreignEntry (and not overwritten since): (entity, key ID) -> form;
+	// (entity, "*") -> form of a signatures[entity] that is no object (foreignEntity)
+	forms map[[2]string]string
+}
+
+// whole lists the entities whose signatures[entity] is no object (null included).
+func (d *document) whole() map[string]bool {
+	out := map[string]bool{}
+	for x := range d.forms {
+		if x[1] == "*" {
+			out[x[0]] = true
+		}
+	}
+	return out
+}
+
+// unreadable says whether an entry is there in a form a signer cannot carry over (JSONSign.tla: Unreadable).
+func (d *document) unreadable() bool {
+	for _, f := range d.forms {
+		if f != "blank" {
+			return true
+		}
+	}
+	return false
+}
+
+// foreignForm names the form of a foreign entry of the document ("" if none), entries that cannot be carried
+// over first: used to label disagreements.
+func (d *document) foreignForm() string {
+	var slots [][2]string
+	for x := range d.forms {
+		slots = append(slots, x)
+	}
+	sort.Slice(slots, func(i, j int) bool { return slots[i][0]+"\x00"+slots[i][1] < slots[j][0]+"\x00"+slots[j][1] })
+	// a name whose entry is no object first, then entries that cannot be carried over, then blanks
+	pick := func(want func(x [2]string) bool) string {
+		for _, x := range slots {
+			if want(x) {
+				if x[1] == "*" {
+					return "entity-" + d.forms[x]
+				}
+				return d.forms[x]
+			}
+		}
+		return ""
+	}
+	if f := pick(func(x [2]string) bool { return x[1] == "*" && d.forms[x] != "blank" }); f != "" {
+		return f
+	}
+	if f := pick(func(x [2]string) bool { return d.forms[x] != "blank" }); f != "" {
+		return f
+	}
+	return pick(func(x [2]string) bool { return true })
 }
 
 func (d *document) rerender(rng *rand.Rand) { d.bytes = render(d.top, styleOf(d.pres, rng)) }
@@ -439,31 +528,52 @@ func (d *document) sigShape(name string) string {
 	return "entity-present"
 }
 
-// flatSigs lists the signature entries (entity, key ID) -> decoded bytes of the harness' reading.
+// flatSigs lists the entries (entity, key ID) of the harness' reading by what they are: the bytes of a string of
+// unpadded base64 (either alphabet; a blanked entry - null or "" - is the empty byte string), otherwise the value
+// itself.
 func flatSigs(top map[string]interface{}) map[[2]string]string {
 	out := map[[2]string]string{}
 	m, _ := top["signatures"].(map[string]interface{})
 	for e, v := range m {
-		em, _ := v.(map[string]interface{})
+		em, isMap := v.(map[string]interface{})
+		if !isMap && v != nil {
+			out[[2]string{e, "*"}] = "value:" + string(canonical(v)) // a name whose entry is no object
+		}
 		for k, s := range em {
-			str, ok := s.(string)
-			if !ok {
-				out[[2]string{e, k}] = fmt.Sprintf("non-string:%v", s)
-				continue
-			}
-			out[[2]string{e, k}] = string(decodeB64(str))
+			out[[2]string{e, k}] = entryDesc(s)
 		}
 	}
 	return out
 }
 
-func decodeB64(s string) []byte {
-	for _, enc := range []*base64.Encoding{base64.RawStdEncoding, base64.RawURLEncoding, base64.StdEncoding, base64.URLEncoding} {
-		if b, err := enc.DecodeString(s); err == nil {
-			return b
+func entryDesc(s interface{}) string {
+	if s == nil {
+		return "bytes:"
+	}
+	if str, ok := s.(string); ok {
+		if b, ok := decodeUnpadded(str); ok {
+			return "bytes:" + string(b)
 		}
 	}
-	return []byte("undecodable:" + s)
+	return "value:" + string(canonical(s))
+}
+
+func decodeUnpadded(s string) ([]byte, bool) {
+	for _, enc := range []*base64.Encoding{base64.RawStdEncoding, base64.RawURLEncoding} {
+		if b, err := enc.DecodeString(s); err == nil {
+			return b, true
+		}
+	}
+	return nil, false
+}
+
+func decodesAnyBase64(s string) bool {
+	for _, enc := range []*base64.Encoding{base64.RawStdEncoding, base64.RawURLEncoding, base64.StdEncoding, base64.URLEncoding} {
+		if _, err := enc.DecodeString(s); err == nil {
+			return true
+		}
+	}
+	return false
 }
 
 type stepFailure struct {
@@ -538,6 +648,8 @@ func (d *document) libSign(name, kid string, priv ed25519.PrivateKey) *stepFailu
 		}
 	}
 	d.top, d.bytes, d.pres = top2, out, "canon"
+	delete(d.forms, slot)
+	delete(d.forms, [2]string{name, "*"})
 	return nil
 }
 
@@ -569,5 +681,131 @@ func (d *document) foreignSign(name, kid string, priv ed25519.PrivateKey, urlSaf
 	em[kid] = enc.EncodeToString(sig)
 	sm[name] = em
 	d.top["signatures"] = sm
+	delete(d.forms, [2]string{name, kid})
+	delete(d.forms, [2]string{name, "*"})
+	d.rerender(rng)
+}
+
+// values of the forms of JSONSign.tla that are no base64 at all
+var formTexts = []string{"(revoked)", "-----BEGIN PGP SIGNATURE-----\n\niQEzBAABCAAdFiEE\n=njhB\n-----END PGP SIGNATURE-----", "AAAAA", "not base64!",
+	"\u00e9", " ", "AAAA AAAA", "sig:v1:AAAA", "ed25519=AAAA", "AAAA=AAAA", "a-b+", "=", "====", "AAAA.AAAA.AAAA", "\x00", "A"}
+var formScalars = []string{"12345", "0", "-1", "1e5", "0.5", "9007199254740993", "true", "false"}
+var formObjects = []string{`{"alg":"RS256","sig":"AAAA"}`, `{}`, `{"ed25519:1":"AAAA"}`, `{"signature":"AAAA","key":null}`, `{"":{}}`}
+var formLists = []string{`[]`, `["AAAA"]`, `[1,2]`, `[null]`, `[{"sig":"AAAA"}]`, `[[]]`}
+
+// foreignEntry is the action ForeignEntry: somebody leaves under signatures[name][kid] a value of the given form
+// that is no signature under any key of the universe; the document keeps its presentation and everything else.
+// Where the value carries signature bytes (padded base64, inside an object or a list) they are a genuine ed25519
+// signature of the current projection by a key nobody of the universe holds, or random bytes of some length.
+func (d *document) foreignEntry(name, kid, form string, rng *rand.Rand) {
+	sigBytes := func(lengths []int) []byte {
+		if rng.Intn(2) == 0 {
+			var seed [32]byte
+			rng.Read(seed[:])
+			return ed25519.Sign(ed25519.NewKeyFromSeed(seed[:]), canonical(d.projection()))
+		}
+		b := make([]byte, lengths[rng.Intn(len(lengths))])
+		rng.Read(b)
+		return b
+	}
+	var v interface{}
+	switch form {
+	case "padded":
+		// lengths that are no multiple of three: the encoding ends in '=' or '=='
+		b := sigBytes([]int{64, 64, 65, 32, 1, 2, 62})
+		enc := base64.StdEncoding
+		if rng.Intn(4) == 0 {
+			enc = base64.URLEncoding
+		}
+		str := enc.EncodeToString(b)
+		if !strings.HasSuffix(str, "=") {
+			panic("harness: padded form without padding")
+		}
+		v = str
+	case "text":
+		str := formTexts[rng.Intn(len(formTexts))]
+		if decodesAnyBase64(str) {
+			panic("harness: text form " + str + " is base64")
+		}
+		v = str
+	case "scalar":
+		v = mustParse(formScalars[rng.Intn(len(formScalars))])
+	case "object":
+		o := mustParse(formObjects[rng.Intn(len(formObjects))]).(map[string]interface{})
+		if _, ok := o["sig"]; ok && rng.Intn(2) == 0 {
+			o["sig"] = base64.RawStdEncoding.EncodeToString(sigBytes([]int{64, 256}))
+		}
+		v = o
+	case "list":
+		l := mustParse(formLists[rng.Intn(len(formLists))]).([]interface{})
+		if len(l) == 1 && rng.Intn(2) == 0 {
+			l[0] = base64.RawStdEncoding.EncodeToString(sigBytes([]int{64}))
+		}
+		v = l
+	case "blank":
+		if rng.Intn(2) == 0 {
+			v = ""
+		}
+	default:
+		panic("unknown entry form " + form)
+	}
+	sm, _ := d.top["signatures"].(map[string]interface{})
+	if sm == nil {
+		sm = map[string]interface{}{}
+	}
+	em, _ := sm[name].(map[string]interface{})
+	if em == nil {
+		em = map[string]interface{}{}
+	}
+	em[kid] = v
+	sm[name] = em
+	d.top["signatures"] = sm
+	if d.forms == nil {
+		d.forms = map[[2]string]string{}
+	}
+	d.forms[[2]string{name, kid}] = form
+	delete(d.forms, [2]string{name, "*"})
+	d.rerender(rng)
+}
+
+var entityTexts = []string{"garbage", "", "ed25519:1", "AAAA", "{}", "(none)"}
+var entityLists = []string{`[]`, `["ed25519:1"]`, `[{"ed25519:1":"AAAA"}]`, `[null]`}
+
+// foreignEntity is the action ForeignEntity: signatures[name] as a whole becomes a value of the given form that is
+// no object (whatever name had there is gone); the document keeps its presentation and everything else.
+func (d *document) foreignEntity(name, form string, rng *rand.Rand) {
+	var v interface{}
+	switch form {
+	case "text":
+		str := entityTexts[rng.Intn(len(entityTexts))]
+		if rng.Intn(4) == 0 {
+			b := make([]byte, 64)
+			rng.Read(b)
+			str = base64.RawStdEncoding.EncodeToString(b)
+		}
+		v = str
+	case "scalar":
+		v = mustParse(formScalars[rng.Intn(len(formScalars))])
+	case "list":
+		v = mustParse(entityLists[rng.Intn(len(entityLists))])
+	case "blank":
+	default:
+		panic("unknown entity form " + form)
+	}
+	sm, _ := d.top["signatures"].(map[string]interface{})
+	if sm == nil {
+		sm = map[string]interface{}{}
+	}
+	sm[name] = v
+	d.top["signatures"] = sm
+	if d.forms == nil {
+		d.forms = map[[2]string]string{}
+	}
+	for x := range d.forms {
+		if x[0] == name {
+			delete(d.forms, x)
+		}
+	}
+	d.forms[[2]string{name, "*"}] = form
 	d.rerender(rng)
 }
